@@ -223,13 +223,19 @@ pub(crate) fn wrap_single_line_slow_path<'a>(
     let subsequent_width = options
         .width
         .saturating_sub(display_width(options.subsequent_indent));
-    let line_widths = [initial_width, subsequent_width];
+    // Only the very first output line carries the initial indent.
+    let first_width = if lines.is_empty() {
+        initial_width
+    } else {
+        subsequent_width
+    };
+    let line_widths = [first_width, subsequent_width];
 
     let words = options.word_separator.find_words(line);
     let split_words = split_words(words, &options.word_splitter);
     let broken_words = if options.break_words {
         let mut broken_words = break_words(split_words, line_widths[1]);
-        if !options.initial_indent.is_empty() {
+        if lines.is_empty() && !options.initial_indent.is_empty() {
             // Without this, the first word will always go into the
             // first line. However, since we break words based on the
             // _second_ line width, it can be wrong to unconditionally
